@@ -19,3 +19,17 @@ claim("C20",
       "(peak bound, samples within peak, step bound); definedness of every division / max is an obligation. spokes_grad only bounded.",
       "Floats as reals; numpy linspace/ones/concatenate/sum/max closed forms assumed; spokes_grad covered by the bounded native probe only.",
       "contract-based deductive verification (symbolic execution of the real AST to nonlinear real/integer VCs, z3 incl. nlsat on the integer-relaxed VC)")
+
+claim("C12",
+      "Class invariant of ConjugateGradient proved inductively on the real __init__/_update/_done run on abstract vectors: r = b - A x, "
+      "rzold = <r,Pr>, resid = sqrt(rzold), p = z + beta p_old with beta = rz_new/rz_old, local conjugacy L1-L3, exact A-norm error decrease "
+      "rz^2/pAp, in-place update of the caller's x, breakdown (pAp <= 0) leaves the state untouched and stops; all dimensions, all iteration counts.",
+      "Gram-matrix abstraction of an inner-product space; A, P self-adjoint; Krylov optimality / n-step termination cited from the proved local invariants; floats as reals.",
+      "contract-based deductive verification (inductive class invariant; real method bodies executed on Gram-domain vectors; z3 QF_NRA)")
+claim("C13",
+      "Per-step contracts proved on the real GradientMethod._update and PrimalDualHybridGradient._update: conformance to ISTA/FISTA and "
+      "Chambolle-Pock (incl. theta/step acceleration rules), in-place updates, sufficient decrease and the per-step rate inequality, the "
+      "FISTA Lyapunov function (hinted 3-lemma chain), saddle points are fixed points, Fejer monotonicity of PDHG in the M-norm.",
+      "Convexity/L-smoothness/prox characterisation enter as hypotheses at the evaluated points; scalar step sizes only in the proof "
+      "(array steps bounded); summation of per-step inequalities to the stated rates and convergence of iterates cited.",
+      "contract-based deductive verification (per-step contracts with ghost state; real method bodies on Gram-domain vectors; z3 QF_NRA)")
